@@ -26,10 +26,12 @@ type Server struct {
 	*DSE
 
 	login string // username of logged in user
+
+	authenticated bool // a bind with configured credentials succeeded
 }
 
 func (s Server) isLogin() bool {
-	return s.login != ""
+	return s.login != "" || s.authenticated
 }
 
 type DSE struct {
